@@ -113,4 +113,10 @@ CHECKS = {
     text='~900 targets x 6 histories per quick run (1-12 earlier elections of all rules/arithmetics, biased to end on the target\'s arithmetic class with different precision/guard/display, '
          'incl. equal precision+guard sums with different splits, guard 0, display above precision): renderings must equal the fresh-process reference byte for byte; the same profile object recounted must reproduce itself.',
     note='Scope as in the property: each election is constructed, counted and rendered before the next is constructed.'),
+ 'C05': dict(level='exploration', ref='DESIGN.md 3/C05',
+    technique='runtime monitoring: offline oracle over (ballots, winners) of completed real counts - solid-coalition support counted conservatively for every prefix set against k x initial quota + the stated allowance; one-seat majority clause',
+    text='After each completed count every candidate set with solid support (every set of first-|S| preferences of some ballot) and every k is checked: support > k*q0 + 2*ulp*ballots*candidates '
+         'implies at least k members elected; one seat: a first-preference majority wins. Workload built around coalitions sitting at k quotas -1..+3 ballots (also split evenly over their members), '
+         'steered to zero-vote batches, stable-state exclusions and single defeats; ~130k binding obligations, ~55k within 2 ballots of the threshold per quick run.',
+    note='Known finding C05/warren-premature-stable-state (classifier: rule warren and an "Iterate (stable)" action in the history). mpls only without undeclared write-ins. Strict rankings only.'),
 }
